@@ -598,6 +598,12 @@ def run(ctx):
     nd = duration_layer(ctx)
     ctx.layer("duration-components", literals=len(__import__("vt.durref", fromlist=["x"]).DURATION_LITERALS), templates=len(DUR_TEMPLATES), translations=nd, exhaustive=True,
               note="the interval expression denotes exactly the literal's signed components (independent reading of both sides)")
+    nr = repeated_member_layer(ctx)
+    ctx.layer("repeated-list-members", lists=len(REPEAT_LISTS), translations=nr, exhaustive=True,
+              note="members equal to an earlier member (or rendering like one) are all rendered: same token shape as with fresh values")
+    nf = odd_field_layer(ctx)
+    ctx.layer("non-ascii-field-names", names=len(ODD_FIELDS), templates=len(ODD_FIELD_TEMPLATES), translations=nf, exhaustive=True,
+              note="one quoted identifier per reference: the name itself (standard, SQLite), the documented Athena spelling (Athena)")
     nk = keyword_case_layer(ctx)
     ctx.layer("keyword-literal-case", keywords=len(KW_LITERALS), templates=len(KW_TEMPLATES), translations=nk, exhaustive=True,
               note="every upper/lower-case spelling of true, false, null translates like the lower-case spelling")
@@ -648,6 +654,97 @@ def duration_layer(ctx):
                     ctx.violation(r[0], dict(r[1], layer="durations", literal=lit, template=tpl, dialect=dname))
                 else:
                     ctx.outcome(("duration", "ok"))
+    return n
+
+
+# ---------------------------------------------------------------- list literals with members that are equal (or render equally)
+REPEAT_LISTS = [("n in ({0})", ["1", "2", "1", "3", "2"], ["1", "2", "91", "3", "92"]),
+                ("n in ({0})", ["1", "1"], ["1", "91"]),
+                ("s in ({0})", ["'a'", "'b'", "'a'"], ["'a'", "'b'", "'zz'"]),
+                ("s in ({0})", ["'a'", "'A'", "'a'", "'a'"], ["'a'", "'A'", "'y'", "'z'"]),
+                ("b in ({0})", ["true", "1", "false", "0"], ["true", "91", "false", "92"]),
+                ("n in ({0})", ["1", "1.0", "01", "1"], ["1", "1.5", "91", "92"]),
+                ("n in ({0})", ["null", "null"], ["null", "91"]),
+                ("not (n in ({0})) and s in ({0})", ["2", "2", "2"], ["2", "92", "93"]),
+                ("d in ({0})", ["2020-01-01", "2020-01-01"], ["2020-01-01", "2020-01-02"])]
+
+
+def repeated_member_layer(ctx):
+    """a list literal is a sequence: every member is rendered, also one that equals an earlier member. Compared token by token with
+    the same filter whose repeated members are replaced by fresh values"""
+    n = 0
+    for tpl, rep, fresh in REPEAT_LISTS:
+        t_rep, t_fresh = tpl.format(", ".join(rep)), tpl.format(", ".join(fresh))
+        ctx.count("states")
+        try:
+            trees = [_ps.parse(_lx.tokenize(t_rep)), _ps.parse(_lx.tokenize(t_fresh))]
+        except exceptions.ODataException:
+            continue
+        for dname, cls in DIALECTS.items():
+            n += 1
+            ctx.count("executions")
+            ctx.count("transitions")
+            outs = []
+            for tr in trees:
+                try:
+                    outs.append(("sql", cls().visit(tr)))
+                except exceptions.ODataException as e:
+                    outs.append(("lib", type(e).__name__))
+                except Exception as e:  # noqa
+                    outs.append(("foreign", type(e).__name__))
+            if outs[0][0] != outs[1][0]:
+                ctx.violation("%s:repeated-members:outcome" % dname, {"filter": t_rep, "fresh_filter": t_fresh, "dialect": dname, "layer": "repeated-members", "observed": outs})
+            elif outs[0][0] == "sql":
+                # punctuation / operators in place, everything else (literals of whatever kind, keywords, names) by position only
+                k0 = [t.text if t.kind == "op" else None for t in sqllex.lex(outs[0][1])]
+                k1 = [t.text if t.kind == "op" else None for t in sqllex.lex(outs[1][1])]
+                if k0 != k1:
+                    ctx.violation("%s:repeated-members:tokens" % dname, {"filter": t_rep, "fresh_filter": t_fresh, "dialect": dname, "layer": "repeated-members",
+                                                                         "sql": outs[0][1], "fresh_sql": outs[1][1]})
+                else:
+                    ctx.outcome(("repeated-members", "same-shape"))
+    return n
+
+
+# ---------------------------------------------------------------- field names outside ASCII
+ODD_FIELDS = ["stra\u00dfe", "na\u00efve", "\u00c9tat", "\u540d\u524d", "col\u0663", "pre\u00e7o", "\u0130d", "K\u212a", "Mixed_Case9", "_x", "a.b\u00e9", "\u00b5m"]
+ODD_FIELD_TEMPLATES = ["{F} eq 1", "1 eq {F}", "contains({F}, 'k')", "{F} in (1, 2)", "not ({F} eq null) and {F} gt 0", "tolower({F}) eq 'k'"]
+
+
+def odd_field_layer(ctx):
+    """every field reference is one quoted identifier holding the name (standard, SQLite) or the name under the Athena dialect's documented
+    rule (lower case, everything but ASCII letters / digits / underscore replaced by an underscore); the alias qualifies each of them"""
+    n = 0
+    for f in ODD_FIELDS:
+        for tpl in ODD_FIELD_TEMPLATES:
+            text = tpl.replace("{F}", f)
+            try:
+                tree = _ps.parse(_lx.tokenize(text))
+            except exceptions.ODataException:
+                continue
+            ctx.count("states")
+            occ = tpl.count("{F}")
+            for dname, cls in DIALECTS.items():
+                for al in (None, "al"):
+                    n += 1
+                    ctx.count("executions")
+                    ctx.count("transitions")
+                    try:
+                        sql = cls(al).visit(tree)
+                    except exceptions.ODataException:
+                        ctx.outcome(("odd-field", "refused"))
+                        continue
+                    except Exception as e:  # noqa
+                        ctx.violation("%s:odd-field:foreign:%s" % (dname, type(e).__name__), {"filter": text, "dialect": dname, "alias": al, "layer": "odd-fields"})
+                        continue
+                    name = f.split(".")[-1]
+                    want = sqllex.athena_identifier_ref(name) if dname == "athena" else name
+                    toks = sqllex.lex(sql)
+                    names = [t.value for t in toks if t.kind == "qid" and t.value != "al"]
+                    if sqllex.bad_tokens(toks) or names != [want] * occ:
+                        ctx.violation("%s:odd-field:identifier" % dname, {"filter": text, "dialect": dname, "alias": al, "layer": "odd-fields", "sql": sql, "expected_identifier": want})
+                    else:
+                        ctx.outcome(("odd-field", "ok"))
     return n
 
 
@@ -792,6 +889,16 @@ def replay(ctx, case):
         pre, suf = {t: (a, b) for t, a, b in DUR_TEMPLATES}[case["template"]]
         r = duration_unit(case["literal"], case["template"], pre, suf, case["dialect"])
         return {"filter": text, "violation": r, "ok": r is None}
+    if case.get("layer") == "repeated-members":
+        acc = Acc()
+        repeated_member_layer(acc)
+        mine = [v for v in acc.violations if v["case"]["filter"] == text and v["case"]["dialect"] == case["dialect"]]
+        return {"filter": text, "violations": mine, "ok": not mine}
+    if case.get("layer") == "odd-fields":
+        acc = Acc()
+        odd_field_layer(acc)
+        mine = [v for v in acc.violations if all(v["case"].get(k) == case.get(k) for k in ("filter", "dialect", "alias"))]
+        return {"filter": text, "violations": mine, "ok": not mine}
     if case.get("layer") == "keyword-case":
         outs = []
         for tx in (case["lower_case_filter"], text):
